@@ -1149,7 +1149,7 @@ fn main() {
         "equal content => equal digests on independently built maps; different key digests in a bucket => that bucket and the root differ; a client-visible difference must show in the key digest",
     );
     let dreps = if s.is_replay() { 8 } else { 1 };
-    s.run_cases("digest_pairs", s.scale(40_000, 1_000_000), || case_strategy(false), |c, ctx| {
+    s.run_cases("digest_pairs", s.scale(40_000, 3_000_000), || case_strategy(false), |c, ctx| {
         for _ in 0..dreps {
             check_digest_case(c, ctx)?;
         }
@@ -1161,7 +1161,7 @@ fn main() {
         "process_peer_digest / create_sync_request / handle_sync_request / get_keys_in_buckets driven by hand for ceil(keys/limit)+2 rounds: safety for every key, convergence of the initially divergent buckets, equal digests once the states are equal",
     );
     let reps = if s.is_replay() { 32 } else { 2 };
-    s.run_cases("sync_direct", s.scale(30_000, 600_000), || case_strategy(true), |c, ctx| {
+    s.run_cases("sync_direct", s.scale(30_000, 2_000_000), || case_strategy(true), |c, ctx| {
         check_sync_reps(c, false, reps, ctx)
     });
 
@@ -1169,7 +1169,7 @@ fn main() {
         "sync_sim",
         "the same through MultiNodeSimulation::run_anti_entropy_sync on two simulated nodes",
     );
-    s.run_cases("sync_sim", s.scale(20_000, 400_000), || case_strategy(true), |c, ctx| {
+    s.run_cases("sync_sim", s.scale(20_000, 1_200_000), || case_strategy(true), |c, ctx| {
         check_sync_reps(c, true, reps, ctx)
     });
 
